@@ -146,8 +146,9 @@ type propState struct {
 }
 
 type knownHit struct {
-	Count int    `json:"count"`
-	First string `json:"first"`
+	Count int             `json:"count"`
+	First string          `json:"first"`
+	Case  json.RawMessage `json:"case,omitempty"` // first case that hit the listed signature
 }
 
 type violation struct {
@@ -239,7 +240,7 @@ func (p *propState) account(caseJSON []byte, r *R) {
 	for sig, msg := range r.known {
 		h := p.known[sig]
 		if h == nil {
-			h = &knownHit{First: msg}
+			h = &knownHit{First: msg, Case: append(json.RawMessage(nil), caseJSON...)}
 			p.known[sig] = h
 		}
 		h.Count++
